@@ -10,7 +10,7 @@ SIG = {'mul': 'xxx'}
 encode = default_encode(SIG)
 decode = default_decode(SIG)
 TASK_REQS = 2500
-RULE = ('requests (a, b, carry word): structured operand families; a = ceil(2^BITS / b) +- 1 (overflow by one bit); single-digit '
+RULE = ('requests (a, b, carry word): structured operand families; a = ceil(2^BITS / b) +- 1 (overflow by one bit); leading digits ta, tb with ta*tb .. (ta+1)*(tb+1) in B-2..B+2 (every factorisation of those five numbers) at operand lengths adding up to N or N+1; single-digit '
         'operands at digit positions i, j with i + j in {N-2, N-1, N} (the in/out-of-range column boundary); signed magnitude '
         '2^(BITS-1) with every sign combination, MIN * +-1, (MAX/k)*k; MAX*MAX+MAX; all 2^16 pairs at 8 bits. Non-trivial: the '
         'product overflows, is exactly MIN, has full width without overflowing, or overflows only through the last row carry; '
@@ -54,8 +54,17 @@ def requests(cfg, rng, n, tier, part, nparts, st):
     for _ in range(n):
         r = rng.random()
         c = rng.choice((0, 1, cfg.max, cfg.mask, gen.value(cfg, rng), gen.value(cfg, rng)))
-        if r < 0.30:
+        if r < 0.22:
             a, b = gen.pair(cfg, rng)
+        elif r < 0.30:
+            # leading digits whose product (or the product of their successors) is B-2 .. B+2: the exact boundary of any bound that decides
+            # from the leading digits alone whether the product fits
+            a, b = gen.leading_product_pair(cfg, rng)
+            if cfg.signed:
+                if rng.random() < 0.3:
+                    a = -a
+                if rng.random() < 0.3:
+                    b = -b
         elif r < 0.55:
             # product lands next to the representability boundary
             b = gen.short(cfg, rng) if rng.random() < 0.7 else gen.value(cfg, rng)
